@@ -490,6 +490,15 @@ impl World {
             "dialect": dialect,
         }})
     }
+    /// Settings of configuration `c` of `c09::CONFIGS` / `CONFIG_EXTRAS`.
+    pub fn settings_for(&self, c: usize) -> Value {
+        let (dialect, isolate, ilt) = crate::c09::CONFIG_EXTRAS[c];
+        let mut v = self.settings(serde_json::from_str(crate::c09::CONFIGS[c]).unwrap(), dialect);
+        let o = v["harper-ls"].as_object_mut().unwrap();
+        o.insert("isolateEnglish".into(), json!(isolate));
+        o.insert("markdown".into(), json!({"IgnoreLinkTitle": ilt}));
+        v
+    }
     pub fn doc_path(&self, name: &str) -> PathBuf {
         self.docs_dir.join(name)
     }
